@@ -262,7 +262,7 @@ fn compare_parsed(m: &RespModel, p: &Response) -> Vec<&'static str> {
     if u16::from(p.status_code) != m.code {
         bad.push("status");
     }
-    let want_body: &[u8] = if m.framing == Framing::UntilClose { &[] } else { &m.body };
+    let want_body: &[u8] = &m.body;
     if p.body != want_body {
         bad.push("body");
     }
